@@ -260,7 +260,9 @@ class SshKeyExchangeInit(SshMessageBase):  # pylint: disable=too-many-instance-a
         converter=SshLanguageVector,
         validator=attr.validators.instance_of(SshLanguageVector), default=()
     )
-    first_kex_packet_follows = attr.ib(validator=attr.validators.instance_of(six.integer_types), default=0)
+    first_kex_packet_follows = attr.ib(
+        converter=bool, validator=attr.validators.instance_of(bool), default=False
+    )
     cookie = attr.ib(
         validator=attr.validators.instance_of((bytearray, bytes)),
         default=attr.Factory(lambda: bytearray.fromhex('{:16x}'.format(random.getrandbits(128)).zfill(32)))
